@@ -476,6 +476,7 @@ type symEnv struct {
 	// inline stack (helpers of the same object see the same fields).
 	inlinable   func(call *ast.CallExpr) *ast.FuncDecl
 	recvs       map[types.Object]bool
+	inlineSkip  map[*types.Func]bool // never interpreted in place (abstracted by a resolve hook instead)
 	inlineStack []*ast.FuncDecl
 	havocN     int
 }
@@ -1621,7 +1622,7 @@ func enableInlining(c *Ctx, env *symEnv, fd *ast.FuncDecl, skip map[*types.Func]
 	}
 	env.inlinable = func(call *ast.CallExpr) *ast.FuncDecl {
 		cf := calleeOf(info, call)
-		if cf == nil || ast.IsExported(cf.Name()) || skip[cf.Origin()] {
+		if cf == nil || ast.IsExported(cf.Name()) || skip[cf.Origin()] || env.inlineSkip[cf.Origin()] {
 			return nil
 		}
 		d := c.declOf(cf)
